@@ -23,6 +23,12 @@ CLAIMED = {
  "C09": ("Coq theorems on Model/Cumulative.v: the accumulation is 1-(1-a)exp(-G) (both code variants); for any rate sequence an attempt occurs exactly at the first step where 1-prod exp(-G_i) exceeds the threshold and at no earlier step, none without a crossing; after an attempt accumulation is 0 and the next threshold is the next user value, else the next generator number; runs compose (any number of hops); target by the slot rule on g_i/G; survival 1-acc_n = prod(1-total_i) equals that of Poisson FSSH. Binary64 runs against TrajectoryCum.hopper with a twin generator supplying the same random numbers, incl. exact-tie cases (acc == zeta must not attempt).",
          "trusts: Coq kernel/vm_compute; real-number axioms; numpy Generator.choice = one uniform + searchsorted (checked per attempt); longdouble accumulation vs binary64 at 2^-40",
          "Coq proof (induction over the step list) on hand-written model + correspondence", "DESIGN.md §3 C09"),
+ "C16": ("Coq theorem on Model/Stopping.v (continue_simulating, trace, simulate loop with the positions as an arbitrary function of the step index): whenever the loop returns, either a limit was met at the start and nothing is logged, or it ran exactly K>=1 steps with K the first check index satisfying (step limit | time limit within 1e-8 | was inside the box earlier and is outside now) — never earlier, never later — and the log is the initial condition (unless restarting), every step whose index is a multiple of trace_every, and the final state exactly once, at times t0+k dt, strictly increasing. The same loop runs in binary64 (bit-exact times) against TrajectorySH, TrajectoryCum, Ehrenfest, AugmentedFSSH, AdiabaticMD and an even-sampling parent over randomised limit/box/trace_every combinations; snapshot self-consistency (energy, kinetic, potential) checked on every logged snapshot.",
+         "trusts: Coq kernel/vm_compute; real-number axioms; wrappers around advance_position / tracer.collect to observe positions and step indices",
+         "Coq proof (induction on the loop fuel with a latch invariant) on hand-written model + exact correspondence", "DESIGN.md §3 C16"),
+ "C17": ("Coq theorems on Model/Outcome.v: every entry of the outcome table lies in [0,1]; the 2*nst entries sum to one (any number of states/traces/non-negative weights); the table and the counts are invariant under any permutation of the traces; counts = number of traces per (state, side); equal weights give count/N; hop-histogram entries in [0,1]. Binary64 runs against real batches of five trajectory classes (unequal even-sampling weights), both back-ends, shuffled, counts(), summarize() text and CLI averaged rows. KNOWN FINDING: summarize() raises for YAML-backed batches (no .hops).",
+         "trusts: Coq kernel/vm_compute; real-number axioms; final (weight, active, side, hops) read from each real trace by the harness",
+         "Coq proof (list induction, Permutation) on hand-written model + correspondence", "DESIGN.md §3 C17"),
 }
 NOT_YET = "check not built yet in this commit (work in progress; see DESIGN.md §3 for the planned proof)"
 
